@@ -15,8 +15,9 @@ warnings.simplefilter("ignore", FutureWarning)
 SYNTAXES = ["emacs", "posix-basic", "posix-extended", "grep", "ed", "sed"]
 BASIC = ("posix-basic", "ed", "sed")
 
-LITS = list("abcABab/.-_+") + ["é", "(", ")", "{", "}", "|", "?", "*", "^", "$", "["]
-PATH_CHARS = list("abcAB/.-_+") + ["é", "(", "|", "?", "*", "{"]
+LITS = list("abcABab/.-_+") + ["é", "(", ")", "{", "}", "|", "?", "*", "^", "$", "[", " ", "#", "\t", " ", "#", ",", ":", "=", "!", "&",
+                                "<", ">", "~", "'", '"', "@", "%", ";"]
+PATH_CHARS = list("abcAB/.-_+") + ["é", "(", "|", "?", "*", "{", " ", "#", "\t", "=", "<", "'"]
 
 # characters that need a backslash to be literal outside brackets, per syntax
 ESCAPE = {
@@ -86,7 +87,7 @@ def gen_set(rng):
             lo, hi = sorted(rng.sample(rng.choice(["abc", "ABC", "abcz"]), 2))
             items.append(("r", lo, hi))
         else:
-            items.append(("c", rng.choice(list("abcAB/._+") + ["é", "(", "*", "|", "."])))
+            items.append(("c", rng.choice(list("abcAB/._+") + ["é", "(", "*", "|", ".", " ", "#", "\t", "=", "<", "'", "?", "{", "$"])))
     return ("set", neg, items)
 
 
@@ -400,6 +401,82 @@ def worker(job):
     return st
 
 
+# Patterns on which the engine gives up for one long path (nested, ambiguous repetition) but which plainly decide short paths.
+# (rendering per syntax family, python pattern)
+GIVEUP = [
+    ({"ext": ".*/(a|aa)*b", "bas": ".*/\\(a\\|aa\\)*b"}, r".*/(a|aa)*b"),
+    ({"ext": ".*/(a*)*b", "bas": ".*/\\(a*\\)*b"}, r".*/(a*)*b"),
+    ({"ext": ".*/(a+)+b", "bas": None}, r".*/(a+)+b"),
+    ({"ext": ".*/(x|xx|xxx)*y", "bas": ".*/\\(x\\|xx\\|xxx\\)*y"}, r".*/(x|xx|xxx)*y"),
+]
+
+
+def giveup_worker(job):
+    """The answer for a path is a function of (pattern, path): a path on which the engine gives up (and says so) must not change
+    what the same matcher answers for the paths that follow. Sequence: easy paths, the hopeless path, the same easy paths again."""
+    k, seed = job
+    st = Stats()
+    rng = common.rng_for(seed, "C17g", k)
+    base = common.mkscratch("C17g%d" % k)
+    try:
+        lines, meta = [], {}
+        forms, pyp = GIVEUP[k % len(GIVEUP)]
+        ch = "x" if "x" in pyp else "a"
+        end = "y" if ch == "x" else "b"
+        for syntax in ("posix-extended", "emacs", "grep", "posix-basic", "sed"):
+            if syntax == "posix-extended":
+                pat = forms["ext"]
+            elif syntax in ("emacs", "grep"):
+                pat = forms["ext"].replace("(", "\\(").replace(")", "\\)").replace("|", "\\|")
+                if "+" in pat and syntax == "grep":
+                    pat = pat.replace("+", "\\+")
+            else:
+                pat = forms["bas"]
+                if pat is None or "|" in pat:
+                    continue                     # POSIX basic syntaxes have no alternation / '+'
+            easy = ["./" + ch * rng.randint(0, 6) + end for _ in range(4)] + ["./" + ch * 3 + "c", "./q", "./d/" + ch * 2 + end]
+            hopeless = "./" + ch * rng.randint(44, 60) + "c"
+            paths = easy + [hopeless] + easy + [hopeless] + easy
+            args = ["-regextype", syntax, "-regex", pat]
+            c = "g%d_%s" % (k, syntax)
+            meta[c] = (syntax, args, paths, len(easy))
+            lines.append("\t".join([c, "P", "1", str(len(args))] + [common.hx(a) for a in args] + [common.hx(p_) for p_ in paths]))
+        res = common.run_vh("match", lines, base, cwd=base, per_case_timeout=300)
+        py = re.compile(pyp, re.S)
+        for c, (syntax, args, paths, ne) in meta.items():
+            r = res.get(c)
+            rp = {"args": args, "paths": paths}
+            if r is None or r[0] in ("HANG", "CRASH", "panic") or (r[0] == "ok" and "P" in r[2]):
+                st.violate("hang-or-crash", None, {"args": args, "result": r}, rp)
+                continue
+            if r[0] == "err":
+                st.violate("pattern-rejected", None, {"args": args, "error": common.unhx(r[1]).decode("utf-8", "replace")}, rp)
+                continue
+            st.inc("giveup_sequences")
+            bits = r[2]
+            seen_giveup = False
+            for i, (p_, b) in enumerate(zip(paths, bits)):
+                if b == "E":
+                    st.inc("engine_give_ups_observed")
+                    seen_giveup = True
+                    continue
+                # the hopeless path ends in a character the pattern cannot end with; never hand it to the (backtracking) oracle
+                want = False if len(p_) > 40 else py.fullmatch(p_) is not None
+                st.inc("evaluations")
+                if seen_giveup:
+                    st.inc("evaluations_after_a_give_up")
+                    st.inc("members_after_a_give_up" if want else "non_members_after_a_give_up")
+                if (b == "1") != want:
+                    m = py.match(p_) if want else None
+                    sig = "first-match-shorter-than-path" if (want and b == "0" and m is not None and m.end() < len(p_)) else None
+                    st.violate("regex-mismatch", sig, {"args": args, "path": p_, "index_in_sequence": i, "python_fullmatch": want,
+                                                       "find": b == "1", "bits": bits, "after_a_give_up": seen_giveup,
+                                                       "shape": "give-up-sequence"}, rp)
+    finally:
+        common.force_rmtree(base)
+    return st
+
+
 def binary_worker(job):
     """The same oracle through the real binary on a real tree: paths come from the walk, selection from -print0."""
     import os
@@ -509,13 +586,18 @@ def run(ctx):
     ctx.rule = ("random regex ASTs (literals incl. every metacharacter, '.', bracket sets/ranges/negation, groups, alternation, * + ? and "
                 "intervals, depth <=4) rendered into emacs / posix-basic / ed / sed / posix-extended / grep syntax using only the operators "
                 "that syntax defines, under 8 -regextype scoping shapes, x paths sampled from the AST and mutated (prefixes, extensions, "
-                "substitutions, case); every alternation-bearing pattern is also run with all alternations reversed; distinct = (syntax, "
+                "substitutions, case); every alternation-bearing pattern is also run with all alternations reversed; sequences through one "
+                "matcher in which a path the engine gives up on sits between paths it decides; distinct = (syntax, "
                 "test, argument vector)")
     ctx.assumptions = ["Python re.fullmatch on the same AST (membership only, no back-references)", "paths without newline; ASCII plus é"]
     self_check()
     nw = common.NCPU
     n = ctx.scale(24000, 1600000)
     ctx.pmap(worker, [(k, n // nw, ctx.seed) for k in range(nw)])
+    ng = 4 if ctx.tier == "quick" else 16
+    ctx.pmap(giveup_worker, [(k, ctx.seed) for k in range(ng)])
+    ctx.require("giveup_sequences", 4)
+    ctx.require("members_after_a_give_up", 4)
     nb = ctx.scale(960, 16000)
     ctx.pmap(binary_worker, [(k, nb // nw, ctx.seed) for k in range(nw)])
     if common.memcheck_available():
